@@ -2010,3 +2010,183 @@ create_tcp_local_listener = Spec(
     ensures=[('listener-owns-exactly-the-servers-started', _safe(tl_success_post))],
     raises={'OSError': _safe(tl_failure_post)})
 create_tcp_local_listener.no_replay = True      # real sockets: not replayed natively
+
+
+# =====================================================================================================
+#  9. listener bookkeeping of the creators: every listener a connection creates is recorded under its ACTUAL key
+# =====================================================================================================
+# "released when their connection ends" rests on the table: _cleanup / cancel close what is recorded (C09 + section 6),
+# so each creator must record the new listener under the address it really listens on (the bound port when port 0
+# was asked for), touch no other entry, and record nothing when it fails.
+LSN = opaque_sort('Listener')
+listener_port = z3.Function('listener_port', LSN, IntS)          # SSHListener.get_port() of a TCP listener
+
+
+def bound_port_stub(cx):
+    """listener.get_port(): the port the listener is bound to (a function of the listener; 1..65535)"""
+    if not (isinstance(cx.recv, VOpaque) and cx.recv.sortname == 'Listener'):
+        raise Unsupported('get_port() of something that is not the new listener')
+    p = listener_port(cx.recv.z)
+    return [Out(ret=VInt(p), assume=[p >= 1, p < 65536])]
+
+
+bound_port_stub.modifies = ()
+CREATE_LISTENER = may_raise(ret('opaque:Listener', 'new_listener', event='create_listener'), 'OSError')
+CREATOR_STUBS = {'create_tcp_forward_listener': CREATE_LISTENER, 'create_unix_forward_listener': CREATE_LISTENER,
+                 'create_socks_listener': CREATE_LISTENER, 'listener.get_port': bound_port_stub,
+                 'self.logger.debug1': noop()}
+
+
+def created_listener(c):
+    x = [k for k in c.calls() if k['key'].startswith('create_') and k.get('exc') is None]
+    return x[-1]['ret'] if len(x) == 1 and isinstance(x[-1]['ret'], VOpaque) else None
+
+
+def recorded_under_actual_key(keyf):
+    def post(c):
+        L = created_listener(c)
+        if L is None:
+            return z3.BoolVal(False)
+        old, new = c.oldv('_local_listeners'), c.newv('_local_listeners')
+        if not isinstance(new, VMap):
+            return z3.BoolVal(False)
+        key = keyf(c, L)
+        return z3.And(same_z(c.result_v, L.z),
+                      new.dom == z3.Store(old.dom, key, True), new.val == z3.Store(old.val, key, L.z))
+    return post
+
+
+def nothing_recorded_on_failure(c):
+    old, new = c.oldv('_local_listeners'), c.newv('_local_listeners')
+    return z3.And(new.dom == old.dom, new.val == old.val) if isinstance(new, VMap) else z3.BoolVal(False)
+
+
+def tcp_actual_key(c, L):
+    port = z3.If(c.arg('listen_port') == 0, listener_port(L.z), c.arg('listen_port'))
+    return to_z3(VTuple([c.argv('listen_host'), VInt(port)]), TCP_KEY)
+
+
+def path_actual_key(c, L):
+    return c.arg('listen_path')
+
+
+import errno as _errno      # noqa: E402
+ERRNO_CONSTS = {'errno.' + k: VInt(int(getattr(_errno, k))) for k in ('EADDRINUSE', 'EEXIST', 'EINVAL')}
+
+
+def creator_spec(qual, params, keyf, keytype, cls='SSHConnection'):
+    sp = Spec(PROP, 'connection', cls + '.' + qual, self_class=cls, params=params,
+              classes={cls: {'_local_listeners': 'dict[' + keytype + ',opaque:Listener]',
+                                         '_loop': 'opaque:Loop'}},
+              stubs=dict(CREATOR_STUBS), globals=dict(ERRNO_CONSTS),
+              requires=(lambda c: z3.And(c.arg('listen_port') >= 0, c.arg('listen_port') < 65536))
+              if 'listen_port' in params else None,
+              ensures=[('new-listener-recorded-under-its-actual-key-and-nothing-else-touched',
+                        _safe(recorded_under_actual_key(keyf)))],
+              raises={'OSError': _safe(nothing_recorded_on_failure)})
+    sp.no_replay = True      # @async_context_manager wrapper + real listener factories: not replayed natively
+    if keytype == 'str':
+        # a UNIX path can be bound again while a listener on it is alive (asyncio removes the "stale" socket file),
+        # so the table entry of a live listener could be overwritten: it would outlive the connection.  (TCP: the
+        # operating system refuses a second bind of a live (host, port) and hands out unused dynamic ports.)
+        def not_displaced(c):
+            old = c.oldv('_local_listeners')
+            key = c.arg('listen_path')
+            closed_ = z3.Or([same_z(e[1][0], z3.Select(old.val, key)) for e in c.events('listener_close')] +
+                            [z3.BoolVal(False)])
+            return z3.Implies(z3.Select(old.dom, key), closed_)
+        sp.ensures.append(('no-live-listener-displaced', _safe(not_displaced)))
+        sp.stubs['existing.close'] = lambda cx: listener_close_stub(cx)
+    return sp
+
+
+fwd_local_port = creator_spec(
+    'forward_local_port', dict(listen_host='str', listen_port='int', dest_host='str', dest_port='int',
+                               accept_handler='opt[opaque:Handler]'), tcp_actual_key, TCP_KEY)
+fwd_local_port_to_path = creator_spec(
+    'forward_local_port_to_path', dict(listen_host='str', listen_port='int', dest_path='str',
+                                       accept_handler='opt[opaque:Handler]'), tcp_actual_key, TCP_KEY,
+    cls='SSHClientConnection')
+fwd_socks = creator_spec('forward_socks', dict(listen_host='str', listen_port='int'), tcp_actual_key, TCP_KEY,
+                          cls='SSHClientConnection')
+fwd_local_path = creator_spec('forward_local_path', dict(listen_path='str', dest_path='str'), path_actual_key, 'str')
+fwd_local_path_to_port = creator_spec(
+    'forward_local_path_to_port', dict(listen_path='str', dest_host='str', dest_port='int'), path_actual_key, 'str',
+    cls='SSHClientConnection')
+
+
+# ---- remote (client-side) listeners: recorded under the address the SERVER bound (RFC 4254 7.1: the reply to a
+# tcpip-forward for port 0 carries the allocated port)
+REMOTE_PARAMS = dict(session_factory='opaque:Factory', encoding='opt[str]', errors='str', window='int',
+                     max_pktsize='int')
+
+
+def global_request_reply_stub(cx):
+    """await self._make_global_request(...): (SUCCESS | FAILURE, reply packet)"""
+    pkt = cx.fresh('obj:SSHPacket', 'reply')
+    f = cx.st.rec(pkt).fields
+    wf = [f['_idx'].z >= 0, f['_idx'].z <= f['_len'].z, f['_len'].z == z3.Length(f['_packet'].z)]   # SSHPacket's
+    ev = ('global_request', tuple(cx.args))                                         # representation invariant
+    return [Out(ret=VTuple([VInt(MSG_REQUEST_SUCCESS), pkt]), assume=wf, event=ev),
+            Out(ret=VTuple([VInt(MSG_REQUEST_FAILURE), pkt]), assume=wf, event=ev)]
+
+
+global_request_reply_stub.modifies = ()
+REMOTE_STUBS = {'self._make_global_request': global_request_reply_stub,
+                'SSHTCPClientListener[]': ret('opaque:Listener', 'new_listener', event='create_listener'),
+                'SSHUNIXClientListener[]': ret('opaque:Listener', 'new_listener', event='create_listener'),
+                'self.logger.debug1': noop()}
+
+
+def remote_recorded(keyf):
+    def post(c):
+        mk = [k for k in c.calls() if k['key'].endswith('ClientListener[]')]
+        if len(mk) != 1:
+            return z3.BoolVal(False)
+        L = mk[0]['ret']
+        old, new = c.oldv('_remote_listeners'), c.newv('_remote_listeners')
+        if not isinstance(new, VMap):
+            return z3.BoolVal(False)
+        key = keyf(c)
+        return z3.And(same_z(c.result_v, L.z), new.dom == z3.Store(old.dom, key, True),
+                      new.val == z3.Store(old.val, key, L.z))
+    return post
+
+
+def remote_tcp_key(c):
+    """requested port, or for port 0 the uint32 the server put in its success reply"""
+    reply = [k for k in c.calls('_make_global_request')][0]['ret'].items[1]
+    rec = c.old_state.rec(reply) if reply.addr in c.old_state.heap else None
+    r0 = [x for x in c.new_state.heap.get('__created__', {}).items() if x[0] == reply.addr]
+    rec = r0[0][1] if r0 else rec
+    pk, i = rec.fields['_packet'].z, rec.fields['_idx'].z
+    port = z3.If(c.arg('listen_port') == 0, unbe(z3.Extract(pk, i, 4)), c.arg('listen_port'))
+    return to_z3(VTuple([VStr(lower_s(c.arg('listen_host'))), VInt(port)]), TCP_KEY)
+
+
+def remote_unchanged(c):
+    old, new = c.oldv('_remote_listeners'), c.newv('_remote_listeners')
+    return z3.And(new.dom == old.dom, new.val == old.val, z3.BoolVal(n(c, 'create_listener') == 0)) \
+        if isinstance(new, VMap) else z3.BoolVal(False)
+
+
+create_remote_server = Spec(
+    PROP, 'connection', 'SSHClientConnection.create_server', self_class='SSHClientConnection',
+    params=dict(REMOTE_PARAMS, listen_host='str', listen_port='int'),
+    classes=dict({'SSHClientConnection': {'_remote_listeners': 'dict[' + TCP_KEY + ',opaque:Listener]',
+                                          '_dynamic_remote_listeners': 'dict[str,opaque:Listener]'}},
+                 **PACKET_CLASSES),
+    inline=dict(PACKET_INLINE), truthy=PACKET_TRUTHY, stubs=dict(REMOTE_STUBS),
+    requires=lambda c: z3.And(c.arg('listen_port') >= 0, c.arg('listen_port') < 65536),
+    ensures=[('remote-listener-recorded-under-the-port-the-server-bound', _safe(remote_recorded(remote_tcp_key)))],
+    raises={'ChannelListenError': _safe(remote_unchanged), 'PacketDecodeError': _safe(remote_unchanged)})
+create_remote_server.no_replay = True
+
+create_remote_unix_server = Spec(
+    PROP, 'connection', 'SSHClientConnection.create_unix_server', self_class='SSHClientConnection',
+    params=dict(REMOTE_PARAMS, listen_path='str'),
+    classes=dict({'SSHClientConnection': {'_remote_listeners': 'dict[str,opaque:Listener]'}}, **PACKET_CLASSES),
+    inline=dict(PACKET_INLINE), truthy=PACKET_TRUTHY, stubs=dict(REMOTE_STUBS),
+    ensures=[('remote-listener-recorded-under-its-path', _safe(remote_recorded(lambda c: c.arg('listen_path'))))],
+    raises={'ChannelListenError': _safe(remote_unchanged), 'PacketDecodeError': _safe(remote_unchanged)})
+create_remote_unix_server.no_replay = True
